@@ -52,6 +52,16 @@ CLAIMED["C06"] = dict(
    text="Every string of length <= 5 (thorough 6) over 19 characters that reach every scanner transition is tokenised by the real lexer and compared with a reference tokenizer written from R7RS 7.1.1 (tokens end only at delimiters); the shorter ones are also read as quoted data through eval and compared with a reference reader. Every ordered pair of 39 token representatives x 9 separators x 5 contexts and every datum tree up to 4 (5) nodes under every layout plan is judged the same way.",
    note="trusted: reflex (self-tested on the repository's own lexer vectors); texts that use lexical syntax outside the supported subset are counted, not judged; the pinned non-delimited booleans/characters are a known finding recognised by an exact defect-model tokenizer",
    design="7/C06")
+CLAIMED["C07"] = dict(
+   technique="bounded exhaustive input sweep in supervised worker processes (watchdog, rlimits, death classification) with post-condition forms on the same interpreter",
+   text="Every string up to length 4 (5) over a 20-character alphabet, every sequence of up to 3 (4) tokens over a 48-token vocabulary of keywords, builtins and boundary literals (plus 4 (5)-token sequences over a reduced vocabulary), every single-token mutation of the corpus (examples, test macros, the three bundled library sources) both as program text and as registered library source, every string of up to 3 exotic characters, and every single-byte corruption of a program and a library file (plus directory / missing paths) is evaluated on the real interpreter inside supervised worker processes; the outcome must be a value or a reported error, and three sanity forms must still give their values on the same interpreter.",
+   note="stack exhaustion, memory exhaustion and non-termination end the worker, are classified by the supervisor and are listed as excluded (outside the property's claim); coverage accounting requires every index to be covered exactly once",
+   design="7/C07")
+CLAIMED["C16"] = dict(
+   technique="bounded exhaustive sweep over value spaces (all 2^32 binary32 bit patterns in the thorough tier), read(display(v)) compared structurally with v",
+   text="display of every value of the enumerated spaces - float bit-pattern classes (thorough: every finite binary32), boundary integers, reduced ratios, every Unicode scalar value as a character, every identifier of length <= 3 over a 21-character alphabet, results of the number grid, every value tree up to 5 (6) nodes with proper lists, dotted tails and (literal/mutable, empty) vectors - is fed back through the real lexer / read_literal (atoms) and through eval of the quoted text, and must yield a structurally equal value of the same exactness; list formatting and injectivity on the tree set are checked.",
+   note="round trip for every enumerated value implies injectivity on that set; strings, non-finite reals and symbols needing bars are outside the property",
+   design="7/C16")
 NOT_YET = "check not built yet (build in progress, see DESIGN.md section 12)"
 NA = {}
 
